@@ -276,6 +276,17 @@ def pdf_variants(kind, Sig, mu, which=("fresh", "Sigma+Lambda", "Sigma+Lambda+ln
                 o.update(jnp.arange(R), mk_pdf(kind, Sig, mu))
                 return o
             out.append((w, b, mu, Sig))
+        elif w == "prod_conjugate":
+            # this density x a single general factor with a NON-diagonal precision, covariance NOT requested, then get_density()
+            Lf = np.array([[2.0 if i == j else 0.7 for j in range(D)] for i in range(D)])
+            nf = al.int_vector(D, salt=4) * 0.5
+            mu_e, Sig_e = [], []
+            for r in range(R):
+                Lr = np.linalg.inv(Sig[r])
+                Se = np.linalg.inv(Lr + Lf)
+                Sig_e.append(0.5 * (Se + Se.T))
+                mu_e.append(Se @ (Lr @ mu[r] + nf))
+            out.append((w, lambda: mk_pdf(kind, Sig, mu).multiply(factor.ConjugateFactor(Lambda=J(Lf[None]), nu=J(nf[None])), update_full=False).get_density(), np.array(mu_e), np.array(Sig_e)))
         elif w == "replaced_mu":
             out.append((w, lambda: mk_pdf(kind, Sig, mu * -0.5 + 1.5).replace(mu=J(mu)), mu, Sig))
         elif w == "queried":
